@@ -447,6 +447,32 @@ pub struct Case {
     /// defect is that the committed trace violates the AIR (or unbalances the lookup bus)
     #[serde(default)]
     pub bad_trace: Option<(u16, u64)>,
+    /// bit 0 / bit 1: additionally evaluate a proof whose commit-phase / query proof-of-work was
+    /// ground for 1 bit while both verifiers demand the configured 4 bits (a proof that
+    /// is valid except for its grinding)
+    #[serde(default)]
+    pub under_grind: u8,
+}
+
+thread_local! {
+    /// prover-side reduction of the PoW bits while an under-ground instance is being made
+    static UNDER_GRIND: std::cell::Cell<u8> = const { std::cell::Cell::new(0) };
+}
+
+/// FRI parameters the *prover* uses (the verifiers always use `fri`).
+pub fn prover_fri(fri: &RFri) -> RFri {
+    let u = UNDER_GRIND.with(|c| c.get());
+    let mut f = fri.clone();
+    // ground for ONE bit instead of the configured 4: with 0 bits the prover would skip the
+    // witness observation altogether and the transcripts would diverge, so the grinding would
+    // not be the proof's only defect
+    if u & 1 != 0 && f.commit_pow > 1 {
+        f.commit_pow = 1;
+    }
+    if u & 2 != 0 && f.query_pow > 1 {
+        f.query_pow = 1;
+    }
+    f
 }
 
 // ==========================================================================================
@@ -989,14 +1015,15 @@ macro_rules! uni_family {
                 pub fn new(fri: &RFri, air: TAir, log_n: usize, seed: u64, bad: BadTrace) -> Result<Self, String> {
                     let fri = fri.clamp_to(log_n, air.min_log_blowup());
                     let config = make_config(&fri, seed);
+                    let pconfig = make_config(&prover_fri(&fri), seed);
                     let (mut trace, pis) = air.trace::<F>(log_n, seed);
                     if let Some((cell, delta)) = bad {
                         let i = fw::pick(cell, trace.values.len());
                         trace.values[i] += F::from_u64(delta % (<F as PrimeField64>::ORDER_U64 - 1)) + F::ONE;
                     }
                     let r = catch(|| {
-                        let (pd, vk) = setup_preprocessed(&config, &air, log_n).unzip();
-                        let proof = prove_with_preprocessed(&config, &air, trace, &pis, pd.as_ref());
+                        let (pd, vk) = setup_preprocessed(&pconfig, &air, log_n).unzip();
+                        let proof = prove_with_preprocessed(&pconfig, &air, trace, &pis, pd.as_ref());
                         (proof, vk)
                     });
                     let (proof, vk) = r.map_err(|p| format!("prover panicked: {p}"))?;
@@ -1177,6 +1204,7 @@ macro_rules! dbatch_family {
                     let min_blowup = airs.iter().map(|(a, _)| a.min_log_blowup()).max().unwrap() + ZK;
                     let fri = fri.clamp_to(min_log_h, min_blowup);
                     let config = make_config(&fri, seed);
+                    let pconfig = make_config(&prover_fri(&fri), seed);
                     let mut traces: Vec<(RowMajorMatrix<F>, Vec<F>)> = airs
                         .iter()
                         .enumerate()
@@ -1207,8 +1235,8 @@ macro_rules! dbatch_family {
                                 public_values: pv.clone(),
                             })
                             .collect();
-                        let pd = ProverData::from_instances(&config, &instances);
-                        let proof = prove_batch(&config, &instances, &pd);
+                        let pd = ProverData::from_instances(&pconfig, &instances);
+                        let proof = prove_batch(&pconfig, &instances, &pd);
                         (proof, pd.common)
                     }));
                     let (proof, common) = r.map_err(|p| format!("prover panicked: {p}"))?;
@@ -1500,13 +1528,15 @@ macro_rules! bsp_family {
                         }
                         let min_log_h = *degrees.iter().min().unwrap();
                         let fri = fri.clamp_to(min_log_h, 1);
-                        let config = make_config(&fri, seed);
-                        let pd = ProverData::from_airs_and_degrees(&config, &airs, &degrees);
+                        let pconfig = make_config(&prover_fri(&fri), seed);
+                        let pd = ProverData::from_airs_and_degrees(&pconfig, &airs, &degrees);
                         let cpd = CircuitProverData::new(pd, prim, nonprim);
-                        let prover = BatchStarkProver::new(config).with_table_packing(packing.clone());
-                        let proof = prover
+                        let proving = BatchStarkProver::new(pconfig).with_table_packing(packing.clone());
+                        let proof = proving
                             .prove_all_tables(&traces, &cpd)
                             .map_err(|e| format!("prove_all_tables: {e:?}"))?;
+                        // the stored prover object is only used as the native *verifier*
+                        let prover = BatchStarkProver::new(make_config(&fri, seed)).with_table_packing(packing.clone());
                         Ok((fri, degrees, prover, proof))
                     });
                     let (fri, degrees, prover, proof) = match r {
@@ -2037,8 +2067,9 @@ fn make_instance(c: &Case, bad: BadTrace) -> Result<Box<dyn Inst>, String> {
 
 pub const RULE: &str = "configuration x FRI parameters (log_blowup 1-3, queries 1-3, log_final_poly_len 0-2, \
 max_log_arity 1-3, commit/query PoW bits in {0,1,4}, cap height 0-1) x AIR instance x honest proof (generated seed) x \
-single-leaf alterations of the bundle {proof, public values, preprocessed commitment / common data}, each applied alone; \
-oracle: native verifier verdict == verification-circuit verdict (honest accepted by both); non-trivial = >= 1 altered \
+single-leaf alterations of the bundle {proof, public values, preprocessed commitment / common data}, each applied alone \
+(+ optionally a proof made from a trace with one altered cell, + optionally a proof ground for 1 proof-of-work bit \
+while both verifiers demand the configured 4 bits); oracle: native verifier verdict == verification-circuit verdict (honest accepted by both); non-trivial = >= 1 altered \
 leaf evaluated; distinct = (configuration, shape, concrete path) of the altered leaves";
 
 pub fn oracle(c: &Case) -> Report {
@@ -2217,6 +2248,56 @@ pub fn oracle(c: &Case) -> Report {
             },
         }
     }
+    // ---- a proof whose only defect is insufficient grinding -----------------------------------
+    if c.under_grind & 3 != 0 {
+        let r = c.fri.resolve();
+        let effective = (c.under_grind & 1 != 0 && r.commit_pow > 1) || (c.under_grind & 2 != 0 && r.query_pow > 1);
+        if !effective {
+            classes.push("under-ground:no-pow-configured".to_string());
+        } else {
+            UNDER_GRIND.with(|u| u.set(c.under_grind & 3));
+            let made = timed(&T_PROVE, || make_instance(c, None));
+            UNDER_GRIND.with(|u| u.set(0));
+            match made {
+                Err(e) => classes.push(format!("under-ground:prover-failed:{}", first_word(&e))),
+                Ok(ui) => match ui.eval(ui.json(), false) {
+                    Err(e) => classes.push(format!("under-ground:not-well-formed:{}", first_word(&e))),
+                    Ok(ev) => {
+                        evaluated += 1;
+                        keys.push(hash_of(&(cfg, shape_h, "under-ground", c.under_grind & 3)));
+                        match (&ev.native, &ev.circuit) {
+                            (Ok(()), CV::Accept) => classes.push("under-ground:both-accept(lucky witness)".to_string()),
+                            (Err(e), CV::Reject { stage, err }) => {
+                                classes.push("under-ground:both-reject".to_string());
+                                classes.push(format!("under-ground:native-reject:{e}"));
+                                classes.push(format!("under-ground:circuit-reject@{stage}:{err}"));
+                            }
+                            (Err(e), CV::Accept) => {
+                                failure.get_or_insert((
+                                    format!("C01/circuit-accepts-native-rejects:{cfg}:under-ground-pow:{e}"),
+                                    format!(
+                                        "a proof ground for fewer proof-of-work bits than both verifiers demand (mask {}) is \
+                                         rejected by the native verifier ({e}) but satisfies the verification circuit; {}",
+                                        c.under_grind & 3,
+                                        ui.shape()
+                                    ),
+                                ));
+                            }
+                            (Ok(()), CV::Reject { stage, err }) => {
+                                failure.get_or_insert((
+                                    format!("C01/circuit-rejects-native-accepts:{cfg}:under-ground-pow:{stage}:{err}"),
+                                    format!(
+                                        "an under-ground proof the native verifier accepts is rejected by the circuit at {stage}: {err}; {}",
+                                        ui.shape()
+                                    ),
+                                ));
+                            }
+                        }
+                    }
+                },
+            }
+        }
+    }
     keys.sort_unstable();
     let mut rep = Report::pass()
         .classes(classes)
@@ -2280,14 +2361,16 @@ pub fn strategy(cfgs: &'static [&'static str], n_muts: usize) -> impl Strategy<V
         any::<u64>(),
         prop::collection::vec(mutation_strategy(), 1..=n_muts),
         prop_oneof![2 => Just(None), 1 => (any::<u16>(), any::<u64>()).prop_map(Some)],
+        prop_oneof![3 => Just(0u8), 1 => Just(1u8), 1 => Just(2u8), 1 => Just(3u8)],
     )
-        .prop_map(move |(ci, fri, air, seed, muts, bad_trace)| Case {
+        .prop_map(move |(ci, fri, air, seed, muts, bad_trace, under_grind)| Case {
             cfg: cfgs[ci].to_string(),
             fri,
             air,
             seed,
             muts,
             bad_trace,
+            under_grind,
         })
 }
 
@@ -2351,6 +2434,7 @@ fn enumeration_cases(ctx: &Ctx, cfg: &str, thorough: bool) -> Vec<Case> {
                     seed,
                     muts: vec![],
                     bad_trace: None,
+                    under_grind: 0,
                 };
                 let inst = match catch(|| make_instance(&base, None)) {
                     Ok(Ok(i)) => i,
